@@ -3,6 +3,7 @@ import json
 import os
 import time
 
+import fam_blocking
 import fam_broker
 import vlib
 
@@ -21,7 +22,9 @@ def _broker_run(prop, tier):
         "rule": fam_broker.RULES[prop],
         "samples": fam["samples"],
         "events": fam["events"],
-        "traces_validated_against_impl": fam["traces"] - len(bad_traces),
+        "traces_validated_against_impl": fam["traces"] - len(bad_traces) - fam.get("divergent_traces", 0),
+        "divergent_traces": fam.get("divergent_traces", 0),
+        "divergences": fam.get("divergences", [])[:10],
         "traces_with_monitor_failure": len(bad_traces),
         "exhaustive": False,
     }
@@ -36,6 +39,9 @@ def _broker_run(prop, tier):
     ]
     vlib.write_evidence(prop, tier, "model_checking", coverage, time.time() - t0 + (0 if fam.get("_cached") else 0),
                         len(unknown), assumptions)
+    if fam.get("divergence_count"):
+        print("DIVERGENCE: %d recorded transitions/views of %d traces are not behaviours of spec/Broker.tla (L2); "
+              "no property monitor failed on them; see evidence" % (fam["divergence_count"], fam["divergent_traces"]))
     if mc and not mc.get("ok", True):
         # a spec-level counterexample is about the design model; report but judge the code by L1 only
         print("SPEC-LEVEL: Broker_MC reported %s (see evidence); the code is judged by the trace monitors" % mc.get("violated", "an error"))
@@ -62,3 +68,61 @@ def _broker_replay(prop, path):
 CHECKS = {}
 for _p in fam_broker.FAMILY:
     CHECKS[_p] = {"run": _broker_run, "replay": _broker_replay}
+
+
+def _blocking_run(prop, tier):
+    t0 = time.time()
+    fam = fam_blocking.run_family(tier)
+    mine = [dict(v, key="%s:%s" % (v["mon"], ",".join(v["reset"]["targets"]) + "/b%d" % len(v["reset"]["blockers"])),
+                 detail="%s at line %d of run seed=%s targets=%s blockers=%s" % (
+                     v["mon"], v["line"] - v["run_start"], v["reset"]["seed"], v["reset"]["targets"], v["reset"]["blockers"]))
+            for v in fam["violations"]]
+    unknown, hits = vlib.split_known(prop, mine)
+    mcs = fam["mc"]
+    coverage = {
+        "states": sum(m["states"] for m in mcs),
+        "transitions": sum(m["transitions"] for m in mcs),
+        "traces_validated_against_impl": fam["runs"] - fam["bad_runs"] - fam["divergent_runs"],
+        "divergent_traces": fam["divergent_runs"],
+        "divergences": fam["divergences"][:5],
+        "samples": fam["samples"],
+        "evaluations": fam["runs"],
+        "distinct_nontrivial": fam["distinct_nontrivial"],
+        "distinct_schedules": fam["distinct"],
+        "events": fam["events"],
+        "rule": fam_blocking.RULE,
+        "spec_level": [{k: m[k] for k in ("name", "ok", "states", "transitions", "wall_s")} for m in mcs],
+        "exhaustive": False,
+    }
+    vlib.write_evidence(prop, tier, "model_checking", coverage, time.time() - t0, len(unknown), [
+        "the hint computation of RedisScanMigratingTask::send is replicated in the rig (harness/src/blockrig.rs::hint_of)",
+        "hook placement (verif hook H2) covers every shared-memory access of blocking.rs / biatomic.rs",
+        "sequential consistency of the atomics (the code uses SeqCst everywhere)",
+    ])
+    bad_mc = [m for m in mcs if not m["ok"]]
+    if bad_mc:
+        raise vlib.ToolError("Blocking_MC failed: %s\n%s" % (bad_mc[0]["name"], bad_mc[0]["tail"]))
+    if fam["divergent_runs"]:
+        print("DIVERGENCE: %d runs are not behaviours of spec/Blocking.tla (L2), first: %s" % (
+            fam["divergent_runs"], json.dumps(fam["divergences"][0])))
+
+    def replay_of(v):
+        return vlib.write_replay(prop, v["key"].replace(":", "_").replace(".", "_").replace(",", "-").replace("/", "_"), {
+            "property": prop, "monitor": v["mon"], "reset": v["reset"], "events": v["events"], "detail": v["detail"],
+            "how": "./check %s --replay <this file>" % prop})
+    return vlib.finish(prop, unknown, hits, replay_of)
+
+
+def _blocking_replay(prop, path):
+    hits = fam_blocking.replay(path)
+    hits = [h for h in hits if h["mon"].startswith(prop + ".")]
+    if hits:
+        print("VIOLATION property=%s replay=%s" % (prop, path))
+        for h in hits[:5]:
+            print("  detail: %s at line %d" % (h["mon"], h["line"]))
+        return 1
+    print("replay: no %s monitor fails on the current tree" % prop)
+    return 0
+
+
+CHECKS["C11"] = {"run": _blocking_run, "replay": _blocking_replay}
